@@ -151,8 +151,17 @@ func c03Client(p *ana.Prog, r *ana.Result, name string, scion bool) {
 		for k := 0; k < 4; k++ {
 			ph, ok := args[k].(*ssa.Phi)
 			if !ok || ph.Block() != t0.Block() {
-				okPhi = false
-				break
+				// the same value on both arms (e.g. t2 = this response's transmit time either way)
+				if ok || args[k] == nil {
+					okPhi = false
+					break
+				}
+				if in, isIn := args[k].(ssa.Instruction); isIn && !(in.Block() == t0.Block() || in.Block().Dominates(t0.Block())) {
+					okPhi = false
+					break
+				}
+				av.v[k] = args[k]
+				continue
 			}
 			av.v[k] = ph.Edges[i]
 		}
